@@ -286,7 +286,8 @@ def run(ctx):
         'block with each of 13 service behaviours (200, no groups key, empty groups, 404 user, 404 groups, unreachable, groups unreachable, bad JSON, 500/204 user, 403/500 groups) or no/'
         'non-string url; two blocks over the product of behaviours; every ordered arrangement of 7 block states over two blocks '
         '(and over three: all in thorough, those ending in a non-consulted block + a spread in quick); mixed} x one connection '
-        '[valid Create, malformed frame, valid Get] against the real session with a real engine (thorough: plain certificates x every configuration of <= 2 blocks, subject encodings x single blocks and all two-block '
+        '[valid Create or Destroy, malformed frame, valid Get, Query, DiscoverVersions, Query+DiscoverVersions, empty batch, '
+        'DiscoverVersions+Create - all five for every third cell, one of them otherwise, kinds and versions 1.0..2.0 rotating] against the real session with a real engine (thorough: plain certificates x every configuration of <= 2 blocks, subject encodings x single blocks and all two-block '
         'arrangements, 6 decisive certificates x all three-block arrangements; quick: '
         'plain shapes x basic configurations in full, arrangements x 5 decisive certificates, subject encodings x 8 decisive '
         'configurations); for every second cell the '
@@ -311,6 +312,18 @@ def run(ctx):
         destroy = sessdrv.encode_request(b(None, [kdrv.destroy('5')], version=(1, 0)), (1, 0))
         garbage = c12.reframe(b'\x42\x00\x78\x01\x00\x00\x00\x00' + b'\x42\x00\x77\x01\x00\x00\x00\x10' + b'\xff' * 16)
         stream = create + garbage + get
+        # the request dimension: NO request may be processed before the identity is established - not the ones a client
+        # sends first either (Query, DiscoverVersions, both, an empty batch, negotiation + Create), under every version
+        def negotiation_frames(v):
+            mk = lambda items, **kw: sessdrv.encode_request(b(None, items, version=v, **kw), v)
+            return [mk([kdrv.query()]), mk([kdrv.discover_versions()]), mk([kdrv.query(), kdrv.discover_versions([(1, 0)])]),
+                    mk([]), mk([kdrv.discover_versions(), kdrv.create()])]
+        nego_all = [negotiation_frames(v) for v in kdrv.VERSIONS]
+
+        def nego_for(n):
+            """every third cell gets all five negotiation requests, the others one of them; kinds and versions rotate"""
+            fr = nego_all[n % len(nego_all)]
+            return b''.join(fr) if n % 3 == 0 else fr[(n // 3) % 5]
         n = 0
         certs, configs = cert_shapes(ctx.tier), plugin_configs(ctx.tier)
         if quick:
@@ -338,16 +351,20 @@ def run(ctx):
                      + list(itertools.product(key_c, (True, False), three)))
         for (clabel, cert), tls, (plabel, plugins) in cells:
             label = '%s|tls=%s|%s' % (clabel, tls, plabel)
-            s = stream if n % 7 else destroy + garbage + get          # now and then a destructive first request
+            s = (stream if n % 7 else destroy + garbage + get) + nego_for(n)    # now and then a destructive first request
             sizes = [len(s)] if n % 3 else [8, len(s) - 8]
             spec = sessdrv.default_spec(s, sizes, cert=cert, tls=tls, plugins=plugins)
             c0 = len(px.calls)
             obs, _ = sessdrv.run_spec(px, spec, settings_from=via_config if n % 2 else None)
             calls = px.calls[c0:]
             oracle(ctx, label, spec, obs)
-            if len(obs['frames']) != 3 or obs['end'] != 'closed':
-                ctx.violation({'kind': 'loop'}, {'config': label}, 'the connection did not serve its three frames and close')
-            cases.append(sessdrv.coq_case(spec, obs, calls))
+            if len(obs['frames']) != len(c12.frames_py(s)) or obs['end'] != 'closed':
+                ctx.violation({'kind': 'loop'}, {'config': label}, 'the connection did not serve all its frames and close')
+            try:
+                cases.append(sessdrv.coq_case(spec, obs, calls))
+            except ValueError as e:         # nothing the model could even be asked about
+                ctx.disagreement('establish', {'config': label, 'unprintable': str(e)})
+                continue
             meta.append({'config': label, 'cert': cert, 'tls': tls, 'plugins': plugins, 'entered': [bool(f['engine']) for f in obs['frames']]})
             ctx.case_seen((clabel, tls, plabel), nontrivial=True)
             ctx.count('cert.' + clabel)
@@ -362,11 +379,15 @@ def run(ctx):
         key_p = [p for p in plugin_configs(ctx.tier) if p[0] in ('none', 'one:ok')]
         for (clabel, cert), tls, (plabel, plugins) in itertools.product(eku_set_shapes(ctx.tier), (True, False), key_p[:1] if quick else key_p):
             label = '%s|tls=%s|%s' % (clabel, tls, plabel)
-            spec = sessdrv.default_spec(create + get, cert=cert, tls=tls, plugins=plugins)
+            spec = sessdrv.default_spec(create + get + nego_for(len(cases)), cert=cert, tls=tls, plugins=plugins)
             c0 = len(px.calls)
             obs, _ = sessdrv.run_spec(px, spec)
             oracle(ctx, label, spec, obs)
-            cases.append(sessdrv.coq_case(spec, obs, px.calls[c0:]))
+            try:
+                cases.append(sessdrv.coq_case(spec, obs, px.calls[c0:]))
+            except ValueError as e:
+                ctx.disagreement('establish', {'config': label, 'unprintable': str(e)})
+                continue
             meta.append({'config': label, 'cert': cert, 'tls': tls, 'plugins': plugins, 'entered': [bool(f['engine']) for f in obs['frames']]})
             ctx.case_seen((clabel, tls, plabel), nontrivial=True)
             ctx.count('eku-sets.' + sessdrv.eku_kind(cert[1]))
@@ -380,12 +401,16 @@ def run(ctx):
             except Exception as e:
                 ctx.disagreement('establish', {'config': label, 'load_settings_raised': repr(e)[:200]})
                 continue
-            spec = sessdrv.default_spec(create + garbage + get, cert=cert, tls=meaning, plugins=[])
+            spec = sessdrv.default_spec(create + garbage + get + nego_for(len(cases)), cert=cert, tls=meaning, plugins=[])
             c0 = len(px.calls)
             obs, _ = sessdrv.run_spec(px, spec, tls_from=lambda: loaded.get('enable_tls_client_auth'),
                                       settings_from=lambda _s: loaded.get('auth_plugins'))
             oracle(ctx, label, spec, obs)
-            cases.append(sessdrv.coq_case(spec, obs, px.calls[c0:]))
+            try:
+                cases.append(sessdrv.coq_case(spec, obs, px.calls[c0:]))
+            except ValueError as e:
+                ctx.disagreement('establish', {'config': label, 'unprintable': str(e)})
+                continue
             meta.append({'config': label, 'cert': cert, 'tls': meaning, 'file_text': text, 'loaded_flag': repr(loaded.get('enable_tls_client_auth')),
                          'plugins': [], 'entered': [bool(f['engine']) for f in obs['frames']]})
             ctx.case_seen((clabel, 'file', text), nontrivial=True)
